@@ -60,6 +60,10 @@ func (switcher DomainSwitcher) ComplexToReal(eval *Evaluator, ctIn, opOut *rlwe.
 		return fmt.Errorf("cannot ComplexToReal: provided evaluator is not instantiated with RingType ring.Standard")
 	}
 
+	if ctIn.Degree() != 1 {
+		return fmt.Errorf("cannot ComplexToReal: ctIn must be of degree 1")
+	}
+
 	level := utils.Min(ctIn.Level(), opOut.Level())
 
 	if ctIn.Value[0].N() != 2*opOut.Value[0].N() {
@@ -99,6 +103,10 @@ func (switcher DomainSwitcher) RealToComplex(eval *Evaluator, ctIn, opOut *rlwe.
 
 	if evalRLWE.GetRLWEParameters().RingType() != ring.Standard {
 		return fmt.Errorf("cannot RealToComplex: provided evaluator is not instantiated with RingType ring.Standard")
+	}
+
+	if ctIn.Degree() != 1 {
+		return fmt.Errorf("cannot RealToComplex: ctIn must be of degree 1")
 	}
 
 	level := utils.Min(ctIn.Level(), opOut.Level())
